@@ -94,7 +94,15 @@ TEnd ==
             \cup Flag(Ev.clean /\ Quiescent /\ ~AckedOnce, "KF:ribConcurrentCallsDoubleAck")
             \cup Flag(Ev.clean /\ Quiescent /\ ~NothingResolvableHeld, "KF:ribConcurrentCallsResolvableHeld"))
 
-CTNext == TStart \/ TStep \/ TEnd
+\* the dangling-entry scenario driven through the real server by two Modify sessions (no specification state involved: the
+\* invariant is evaluated on the recorded RIB)
+TSrv ==
+  /\ IsEvent("csrv")
+  /\ UNCHANGED csvars
+  /\ Report(Flag(~Ev.ok /\ Ev.blocked # <<>>, "ribcsHang") \cup Flag(~Ev.ok /\ Ev.blocked = <<>>, "ribcsSetup")
+            \cup Flag(Ev.ok /\ ~NoDanglingIn(LNh(Ev.st), LNhg(Ev.st), LIp(Ev.st)), "KF:ribConcurrentCallsDangling"))
+
+CTNext == TStart \/ TStep \/ TEnd \/ TSrv
 CTSpec == CTInit /\ [][CTNext]_ctvars
 
 Matched == TLCGet("stats").diameter - 1
